@@ -168,6 +168,8 @@ pub struct ChanState {
     pub ghost: Ghost,
     pub dead: bool,
     pub hsecrets: Vec<[u8; 32]>,
+    /// the channel's per-commitment points from the key material, by commitment number
+    pub hpoints: Vec<[u8; 33]>,
     /// on-chain configurations: the funding transaction and the harness's copy of the chain
     pub funding: Option<(lightning_signer::bitcoin::Transaction, crate::chain::SimChain)>,
 }
@@ -378,6 +380,21 @@ impl ChanModel {
         ))
     }
 
+    /// C18 on the request path: a per-commitment point that a reply hands out for commitment
+    /// `number` is the key material's point for that number, whatever the counters are
+    fn point_handed_out(&self, s: &ChanState, number: u64, p: &vls_protocol::model::PubKey, op: &Op, vios: &mut Vec<Vio>) {
+        if let Some(want) = s.hpoints.get(number as usize) {
+            if p.0 != *want {
+                let is = s.hpoints.iter().position(|x| *x == p.0);
+                vios.push(Vio {
+                    prop: "C18",
+                    key: format!("C18:request-path:reply-point-differs-from-key-material:{}", op.kind()),
+                    what: format!("{:?} answered with a per-commitment point for commitment {} that is {}", op, number, match is { Some(i) => format!("the point of commitment {}", i), None => "none of the channel's points".to_string() }),
+                });
+            }
+        }
+    }
+
     fn handle_validate_reply(&self, s: &mut ChanState, n: u64, sv: S, r: &Outcome<Message>, op: &Op, vios: &mut Vec<Vio>) {
         if let Outcome::Ok(m) = r {
             if sv == S::Valid {
@@ -394,6 +411,8 @@ impl ChanModel {
                     let b = secret_of(sec);
                     self.disclosed(s, &b, op, vios);
                 }
+                // the point that follows the validated commitment
+                self.point_handed_out(s, n + 1, &rep.next_per_commitment_point, op, vios);
             }
         }
     }
@@ -473,7 +492,8 @@ impl Model for ChanModel {
         let hsecrets = (0..self.cfg.k + 6)
             .map(|n| w.holder_secret_raw(DBID, n).unwrap().secret_bytes())
             .collect();
-        ChanState { w: Some(w), cp, setup, params: None, ghost: Ghost::default(), dead: false, hsecrets, funding }
+        let hpoints = (0..self.cfg.k + 6).map(|n| w.holder_point_raw(DBID, n).unwrap().serialize()).collect();
+        ChanState { w: Some(w), cp, setup, params: None, ghost: Ghost::default(), dead: false, hsecrets, hpoints, funding }
     }
 
     fn alive(&self, s: &ChanState) -> bool {
@@ -698,11 +718,15 @@ impl Model for ChanModel {
                         let b = secret_of(sec);
                         self.disclosed(s, &b, op, vios);
                     }
+                    self.point_handed_out(s, *n, &rep.point, op, vios);
                 }
             }
             Op::GetPoint2(n) => {
                 let r = s.w().chan_msg(DBID, Message::GetPerCommitmentPoint2(msgs::GetPerCommitmentPoint2 { commitment_number: *n }));
                 outcome_tag = r.tag();
+                if let Outcome::Ok(Message::GetPerCommitmentPoint2Reply(rep)) = &r {
+                    self.point_handed_out(s, *n, &rep.point, op, vios);
+                }
             }
             Op::Validate(n, c, sv) => {
                 if let Some((cont, sig, hsigs)) = self.validate_msg(s, *n, *c, *sv) {
@@ -763,6 +787,8 @@ impl Model for ChanModel {
                 if let Outcome::Ok(Message::RevokeCommitmentTxReply(rep)) = &r {
                     let b = secret_of(&rep.old_commitment_secret);
                     self.disclosed(s, &b, op, vios);
+                    // revoking n makes n + 1 current; the reply carries the point after that
+                    self.point_handed_out(s, *n + 2, &rep.next_per_commitment_point, op, vios);
                 }
             }
             Op::SignLocal(n) => {
